@@ -107,11 +107,10 @@ def return_status(ctx, fi, r, after=None) -> Optional[int]:
     if st is not None or not isinstance(v, (ast.Name, ast.Await)):
         return st
     cfg = ctx.cfg(fi)
-    key = (id(ctx), fi.qualname)
-    du = _DU_CACHE.get(key)
+    cache = ctx.__dict__.setdefault("_du_cache", {})
+    du = cache.get(fi.qualname)
     if du is None:
-        _DU_CACHE.clear()
-        du = _DU_CACHE[key] = DefUse(cfg)
+        du = cache[fi.qualname] = DefUse(cfg)
     sts = set()
     os_ = origins(du, r, v)
     if after:
